@@ -68,9 +68,22 @@ pub struct Family {
     /// per procedure: (number of fixed params, has rest, tail-context chain (outermost first))
     pub procs: Vec<(usize, bool, Vec<String>)>,
     pub uses_eval: bool,
+    /// the procedures take over the names of built-in procedures (redefinition of globals: a caller
+    /// is compiled while its callee's name still denotes the built-in)
+    pub builtin_names: bool,
 }
 
+const BUILTIN_NAMES: [&str; 3] = ["even?", "odd?", "truncate"];
+
 impl Family {
+    fn proc_name(&self, i: usize) -> String {
+        if self.builtin_names {
+            BUILTIN_NAMES[i % BUILTIN_NAMES.len()].to_string()
+        } else {
+            format!("p{}", i)
+        }
+    }
+
     pub fn render(&self) -> Vec<String> {
         // the loop step is a procedure so that the tail call sits directly in the body of its
         // procedure (a `begin` would put it into a zero-argument lambda and every call would take the
@@ -90,7 +103,7 @@ impl Family {
             // arguments depend on the iteration so that a frame rewrite that loses or misplaces
             // one is seen by the callee (which compares them with the counter)
             let args: Vec<String> = (0..argc).map(|a| format!("(+ %i {})", a + 1)).collect();
-            let proc = format!("p{}", (pi + 1) % np);
+            let proc = self.proc_name((pi + 1) % np);
             let mut call = if args.is_empty() { format!("({})", proc) } else { format!("({} {})", proc, args.join(" ")) };
             // a context that rewrites the call itself (apply / eval) is applied first (innermost,
             // at most one); the others wrap the result, innermost first
@@ -122,8 +135,8 @@ impl Family {
                 format!("(if (and {}) 'ok (set! %bad (+ %bad 1)))", checks.join(" "))
             };
             forms.push(format!(
-                "(define p{pi} (lambda {formals} {verify} (if (= %i 0) (list 'done %acc %bad) (if (%step) {call} 'never))))",
-                pi = pi,
+                "(define {pi} (lambda {formals} {verify} (if (= %i 0) (list 'done %acc %bad) (if (%step) {call} 'never))))",
+                pi = self.proc_name(pi),
                 formals = formals,
                 verify = verify,
                 call = call
@@ -137,9 +150,9 @@ impl Family {
         let argc = arity + if *rest { 1 } else { 0 };
         let args: Vec<String> = (0..argc).map(|a| format!("(+ %i {})", a + 1)).collect();
         if args.is_empty() {
-            "(p0)".into()
+            format!("({})", self.proc_name(0))
         } else {
-            format!("(p0 {})", args.join(" "))
+            format!("({} {})", self.proc_name(0), args.join(" "))
         }
     }
 
@@ -167,7 +180,8 @@ pub fn random_family(rng: &mut Rng) -> Family {
             (rng.usize(5), rng.chance(1, 3), chain)
         })
         .collect();
-    Family { procs, uses_eval }
+    let builtin_names = rng.chance(1, 5);
+    Family { procs, uses_eval, builtin_names }
 }
 
 #[derive(Clone, Debug)]
@@ -254,6 +268,7 @@ fn context_sig(f: &Family) -> String {
 fn to_json(tc: &TailCase) -> Value {
     json!({
         "family": tc.family.procs.iter().map(|p| json!({"arity": p.0, "rest": p.1, "contexts": p.2})).collect::<Vec<_>>(),
+        "builtin_names": tc.family.builtin_names,
         "ns": tc.ns,
         "knobs": {"slot_order_seed": tc.knobs.slot_order_seed, "heap_chunk": tc.knobs.heap_chunk},
         "gc": crate::case::gc_to_json(&tc.gc),
@@ -279,7 +294,7 @@ fn from_json(v: &Value) -> Result<TailCase, String> {
         .collect::<Vec<(usize, bool, Vec<String>)>>();
     let uses_eval = procs.iter().any(|p| p.2.iter().any(|c| c == "eval"));
     Ok(TailCase {
-        family: Family { procs, uses_eval },
+        family: Family { procs, uses_eval, builtin_names: v["builtin_names"].as_bool().unwrap_or(false) },
         ns: v["ns"].as_array().map(|a| a.iter().map(|n| n.as_u64().unwrap_or(10)).collect()).unwrap_or_else(|| vec![10, 1000]),
         knobs: Knobs {
             slot_order_seed: v["knobs"]["slot_order_seed"].as_u64().unwrap_or(0),
